@@ -45,6 +45,18 @@ class G:
         ch = r.random()
         if d <= 0 or ch < 0.4:
             return r.choice([N("s"), attr(N("e"), "jets"), call("f", N("s"))])
+        if ch < 0.5 and d > 0:
+            # sequence arguments that are NOT calls but contain shortcuts: displays, conditionals, subscripts, binops, comprehensions
+            k = r.randint(0, 4)
+            if k == 0:
+                return ast.List(elts=[self.shortcut(d - 1), self.num(d - 1)], ctx=ast.Load())
+            if k == 1:
+                return ast.IfExp(test=ast.Compare(left=self.shortcut(d - 1), ops=[ast.Gt()], comparators=[C(1)]), body=self.seq(d - 1), orelse=N("s"))
+            if k == 2:
+                return ast.Subscript(value=attr(N("e"), "colls"), slice=self.shortcut(d - 1), ctx=ast.Load())
+            if k == 3:
+                return ast.BinOp(left=self.seq(d - 1), op=ast.Add(), right=ast.List(elts=[self.shortcut(d - 1)], ctx=ast.Load()))
+            return ast.ListComp(elt=self.shortcut(d - 1), generators=[ast.comprehension(target=ast.Name(id="t", ctx=ast.Store()), iter=N("s"), ifs=[], is_async=0)])
         if ch < 0.6:
             return call("Select", self.seq(d - 1), lam([r.choice(["j", "Sum", "v"])], self.num(d - 1)))
         if ch < 0.75:
@@ -173,7 +185,7 @@ def judge_folds(ctx):
 
 DIRECTED = [
     "Sum(a, b)", "Sum()", "Max()", "Min()", "len()", "Count()", "Max(a, b, c)", "x.Sum()", "x.len()", "f(Sum)", "Sum",
-    "len(Select(jets, lambda j: Count(j.trks)))", "Select(s, lambda Sum: Sum(x))", "Sum(x, 0, lambda a, b: a)",
+    "len(Select(jets, lambda j: Count(j.trks)))", "Select(s, lambda Sum: Sum(x))", "Sum(x, 0, lambda a, b: a)", "Sum([Count(t) for t in ts])", "Max([Count(t), len(u)])", "Sum(a if Count(b) > 5 else b)", "Min(e.jets[Count(e.mu)].pt)", "Sum(x + [len(y)])", "Sum(len(t) for t in ts)",
     "Count(x, y)", "len(x, y)", "Min(Max(Sum(x)))", "[Sum(x) for x in y]", "np.Sum(x)", "Sum(seq=x)",
 ]
 
